@@ -54,6 +54,7 @@ def _write(results, benign, outname):
 def main(argv):
     only = [a for a in argv if not a.startswith("--")]
     benign = "--benign" in argv
+    primary = "--primary" in argv      # seeded changes: only the check of the property they were written against
     runs = None
     outname = None
     for a in argv:
@@ -74,7 +75,7 @@ def main(argv):
                 results.append({"mutant": name, "error": "patch does not apply: " + (p.stdout + p.stderr)[-300:]})
                 print("%-45s PATCH-FAILED" % name)
                 continue
-            for prop in props:
+            for prop in (props[:1] if primary and name.startswith("seeded/") else props):
                 e = dict(os.environ)
                 e["VERIF_REPO"] = work
                 e["VERIF_EVIDENCE_DIR"] = os.path.join(work, "evidence")
